@@ -858,6 +858,23 @@ impl Shape for BatchShape {
     }
 }
 
+/// Lookup contexts of a list of kit AIRs as key generation derives them (from the AIRs and their
+/// deterministic traces; independent of any proof).
+pub(crate) fn kit_air_lookups(airs: &[TAir]) -> Vec<p3_lookup::Lookups<F>> {
+    if !airs.iter().any(|a| matches!(a, TAir::Lk { .. })) {
+        return vec![p3_lookup::Lookups::<F>::default(); airs.len()];
+    }
+    let fri = FriSc::testing();
+    let config = make_config(&fri);
+    let gens: Vec<_> = airs.iter().map(|a| a.generate::<F>()).collect();
+    let instances: Vec<_> = airs
+        .iter()
+        .zip(gens.iter())
+        .map(|(air, g)| p3_batch_stark::StarkInstance { air, trace: &g.0, public_values: g.2.clone() })
+        .collect();
+    p3_batch_stark::ProverData::from_instances(&config, &instances).common.lookups.clone()
+}
+
 struct BatchCtx {
     airs: Vec<TAir>,
 }
@@ -865,8 +882,9 @@ struct BatchCtx {
 impl BatchCtx {
     fn parse(&self, b: &Value) -> Result<BatchParsed, String> {
         let c: Option<CommonJ> = de(b, "common")?;
-        // the small AIRs declare no lookups: one empty lookup list per AIR (verifier-side data)
-        let lookups = vec![p3_lookup::Lookups::<F>::default(); self.airs.len()];
+        // verifier-side data derived from the AIRs alone (never from the bundle): the lookup
+        // contexts of each AIR (empty for the lookup-free ones)
+        let lookups = kit_air_lookups(&self.airs);
         Ok(BatchParsed { proof: de(b, "proof")?, pis: de(b, "pis")?, common: common_from(c, lookups), fri: de(b, "fri")? })
     }
 }
